@@ -35,6 +35,13 @@ import (
 	"github.com/miekg/dns"
 )
 
+// zeroRules is the version number of "a non-empty file that compiles to zero
+// rules" (comments and blank lines only): the list exists and refreshes fine,
+// but filters nothing.
+const zeroRules = -1
+
+const zeroRulesText = "! this list has been retired\n\n# nothing is filtered any more\n\n! end\n"
+
 // maxV is the largest version of any piece of content.  Version v of a list
 // blocks the hosts number 1..v, so hosts 1..maxV+1 probe every version.
 const maxV = 5
@@ -115,6 +122,9 @@ func fillerRules(b *strings.Builder, n int) {
 // ruleListText is version v of rule list number x.  None of the rules carries
 // a client-specific modifier.
 func ruleListText(id string, x, v, filler, wide int) string {
+	if v == zeroRules {
+		return zeroRulesText
+	}
 	l := label(id)
 	b := &strings.Builder{}
 	fmt.Fprintf(b, "! %s version %d\n", id, v)
@@ -148,7 +158,7 @@ func ruleListIndexJSON(base string, c content) string {
 	}
 	fls := []fl{}
 	for _, id := range ruleListIDs {
-		if c.RL[id] > 0 {
+		if c.RL[id] != 0 {
 			fls = append(fls, fl{id, base + "/rl/" + id})
 		}
 	}
@@ -168,7 +178,12 @@ func svcIndexJSON(c content) string {
 		if v == 0 {
 			continue
 		}
-		s := svc{ID: id, Name: id}
+		s := svc{ID: id, Name: id, Rules: []string{}}
+		if v == zeroRules {
+			// a service that is still in the index but has no rules
+			svcs = append(svcs, s)
+			continue
+		}
 		for j := 1; j <= v; j++ {
 			s.Rules = append(s.Rules, fmt.Sprintf("||s%d.%s.test^", j, label(id)))
 		}
@@ -180,6 +195,9 @@ func svcIndexJSON(c content) string {
 }
 
 func safeSearchText(kind string, v, filler, wide int) string {
+	if v == zeroRules {
+		return zeroRulesText
+	}
 	b := &strings.Builder{}
 	fmt.Fprintf(b, "! safe search %s version %d\n", kind, v)
 	for j := 1; j <= v; j++ {
@@ -203,6 +221,9 @@ func hashHost(kind string, j int) string {
 }
 
 func hashText(kind string, v, filler int) string {
+	if v == zeroRules {
+		return "# this hash list has been retired\n\n# no hosts\n"
+	}
 	b := &strings.Builder{}
 	fmt.Fprintf(b, "# %s version %d\n", kind, v)
 	for i := 0; i < filler; i++ {
